@@ -141,22 +141,23 @@ func (h *hist) crashStep(dir string) {
 			// a copy of the image: a store writes a fresh MANIFEST snapshot each time it is opened, the next open reads it
 			cp := imgfs.Image{Index: img.Index, Label: img.Label, Hash: img.Hash, Dir: img.Dir + "-restarts"}
 			if _, err := imgfs.CopyTree(img.Dir, cp.Dir, nil); err == nil {
-				h.verifyImage(cp, before, 1+i%2)
+				h.verifyImage(cp, before, 1+i%2, "crash")
 				_ = os.RemoveAll(cp.Dir)
 			} else {
 				res.Fatal = "cannot copy image: " + err.Error()
 			}
-			h.verifyImage(img, before, 0)
+			h.verifyImage(img, before, 0, "crash")
 		}
 		_ = os.RemoveAll(img.Dir)
 	}
 }
 
-func (h *hist) verifyImage(img imgfs.Image, before map[int]map[int64]string, restarts int) {
+// what = "crash" (an image of a killed process) or "shutdown" (the directory an engine left behind that was closed while a rollup job was running).
+func (h *hist) verifyImage(img imgfs.Image, before map[int]map[int64]string, restarts int, what string) {
 	res := h.res
 	label := strings.ReplaceAll(img.Label, h.env.dataDir, "<data>")
 	// a view of the history bound to the recovered engine, with its own file statuses
-	v := &hist{spec: h.spec, res: res, rnd: h.rnd, m: h.m, u: h.u, tainted: map[int64]bool{}, stepNo: h.stepNo, stepOp: fmt.Sprintf("crash image %d after '%s'", img.Index, label), prevOp: "crash"}
+	v := &hist{spec: h.spec, res: res, rnd: h.rnd, m: h.m, u: h.u, tainted: map[int64]bool{}, stepNo: h.stepNo, stepOp: fmt.Sprintf("%s image %d after '%s'", what, img.Index, label), prevOp: "crash"}
 	for _, f := range h.fams {
 		c := *f
 		v.fams = append(v.fams, &c)
@@ -168,27 +169,27 @@ func (h *hist) verifyImage(img imgfs.Image, before map[int]map[int64]string, res
 	}
 	defer func() {
 		if r := recover(); r != nil {
-			res.violation("C04/crash/recovery-panics", fmt.Sprintf("%s: panic while recovering / rolling up the image: %v\n%s", v.stepOp, r, debug.Stack()), h.witness(map[string]interface{}{"image": label}))
+			res.violation("C04/"+what+"/recovery-panics", fmt.Sprintf("%s: panic while recovering / rolling up the image: %v\n%s", v.stepOp, r, debug.Stack()), h.witness(map[string]interface{}{"image": label}))
 		}
 		v.env.close()
 	}()
 	e, err := openEnv(img.Dir, nil)
 	if err != nil {
-		res.violation("C04/crash/engine-does-not-open", fmt.Sprintf("%s: %v", v.stepOp, err), h.witness(map[string]interface{}{"image": label}))
+		res.violation("C04/"+what+"/engine-does-not-open", fmt.Sprintf("%s: %v", v.stepOp, err), h.witness(map[string]interface{}{"image": label}))
 		return
 	}
 	v.env = e
 	if err := v.bind(); err != nil {
-		res.violation("C04/crash/source-family-not-recovered", fmt.Sprintf("%s: %v", v.stepOp, err), h.witness(map[string]interface{}{"image": label}))
+		res.violation("C04/"+what+"/source-family-not-recovered", fmt.Sprintf("%s: %v", v.stepOp, err), h.witness(map[string]interface{}{"image": label}))
 		return
 	}
-	res.count("crash.images_recovered", 1)
+	res.count(what+".images_recovered", 1)
 
 	// ---- 1. as recovered: data <=> bookkeeping
 	books := v.books()
 	tv, err := v.readTargets()
 	if err != nil {
-		res.violation("C04/crash/target-unreadable-after-recovery", fmt.Sprintf("%s: %v", v.stepOp, err), h.witness(map[string]interface{}{"image": label}))
+		res.violation("C04/"+what+"/target-unreadable-after-recovery", fmt.Sprintf("%s: %v", v.stepOp, err), h.witness(map[string]interface{}{"image": label}))
 		return
 	}
 	hasRef := func(f *fileRec, iv int64) bool {
@@ -213,7 +214,7 @@ func (h *hist) verifyImage(img imgfs.Image, before map[int]map[int64]string, res
 				f.Status[iv] = stPending
 			}
 			if before[f.Seq][iv] == stIn && f.Status[iv] != stIn {
-				res.violation("C04/crash/rolled-up-file-marked-again", fmt.Sprintf("%s: file#%d was rolled up into %s before the crashed job started, the recovered source family carries its mark again", v.stepOp, f.Seq, ivName(iv)), h.witness(map[string]interface{}{"image": label}))
+				res.violation("C04/"+what+"/rolled-up-file-marked-again", fmt.Sprintf("%s: file#%d was rolled up into %s before the crashed job started, the recovered source family carries its mark again", v.stepOp, f.Seq, ivName(iv)), h.witness(map[string]interface{}{"image": label}))
 			}
 			if before[f.Seq][iv] == stPending {
 				switch {
@@ -230,7 +231,7 @@ func (h *hist) verifyImage(img imgfs.Image, before map[int]map[int64]string, res
 		}
 	}
 	for s := range state {
-		res.count("crash.recovered_state."+s, 1)
+		res.count(what+".recovered_state."+s, 1)
 	}
 	inside := false
 	for s := range state {
@@ -242,38 +243,38 @@ func (h *hist) verifyImage(img imgfs.Image, before map[int]map[int64]string, res
 		inside = true // different (family, interval) jobs at different stages
 	}
 	if inside {
-		res.count("crash.images_strictly_inside_the_rollup", 1)
-		res.Nontrivial = append(res.Nontrivial, fmt.Sprintf("h%d/img/%s", h.spec.Idx, img.Hash[:16]))
+		res.count(what+".images_strictly_inside_the_rollup", 1)
+		res.Nontrivial = append(res.Nontrivial, fmt.Sprintf("h%d/%s/%s", h.spec.Idx, what, img.Hash))
 	}
 	for _, iv := range v.m.targets {
 		r := v.m.compare(iv, tv.obs[iv], v.inclFor(iv), 6)
 		v.countCompare(iv, r)
 		if r.Mismatch > 0 {
-			v.reportDiffs(iv, "crash-recovery", r)
+			v.reportDiffs(iv, what+"-recovery", r)
 		}
 	}
-	v.checkNotes("crash-recovery", tv)
+	v.checkNotes(what+"-recovery", tv)
 
 	// ---- 1b. idle restarts: marks, references (source store, source family id, table) and target data stay what they were
 	for n := 1; n <= restarts; n++ {
-		ctx := fmt.Sprintf("crash-recovery-and-idle-restart-%d", n)
+		ctx := fmt.Sprintf(what+"-recovery-and-idle-restart-%d", n)
 		marksBefore, refsBefore := fmt.Sprint(marksOf(books)), refSet(v.m, tv)
 		v.env.close()
 		e, err := openEnv(img.Dir, nil)
 		if err != nil {
-			res.violation("C04/crash/engine-does-not-open/after-idle-restart", fmt.Sprintf("%s, restart %d: %v", v.stepOp, n, err), h.witness(map[string]interface{}{"image": label}))
+			res.violation("C04/"+what+"/engine-does-not-open/after-idle-restart", fmt.Sprintf("%s, restart %d: %v", v.stepOp, n, err), h.witness(map[string]interface{}{"image": label}))
 			return
 		}
 		v.env = e
 		if err := v.bind(); err != nil {
-			res.violation("C04/crash/source-family-not-recovered/after-idle-restart", fmt.Sprintf("%s, restart %d: %v", v.stepOp, n, err), h.witness(map[string]interface{}{"image": label}))
+			res.violation("C04/"+what+"/source-family-not-recovered/after-idle-restart", fmt.Sprintf("%s, restart %d: %v", v.stepOp, n, err), h.witness(map[string]interface{}{"image": label}))
 			return
 		}
-		res.count("crash.idle_restarts_before_the_repeated_rollup", 1)
+		res.count(what+".idle_restarts_before_the_repeated_rollup", 1)
 		books = v.books()
 		tv, err = v.readTargets()
 		if err != nil {
-			res.violation("C04/crash/target-unreadable/after-idle-restart", fmt.Sprintf("%s, restart %d: %v", v.stepOp, n, err), h.witness(map[string]interface{}{"image": label}))
+			res.violation("C04/"+what+"/target-unreadable/after-idle-restart", fmt.Sprintf("%s, restart %d: %v", v.stepOp, n, err), h.witness(map[string]interface{}{"image": label}))
 			return
 		}
 		if got := fmt.Sprint(marksOf(books)); got != marksBefore {
@@ -283,7 +284,7 @@ func (h *hist) verifyImage(img imgfs.Image, before map[int]map[int64]string, res
 			res.violation("C04/bookkeeping/reference-files-changed-by-idle-restart", fmt.Sprintf("%s, restart %d: reference files (target family <- source store/family id/table) were %s, after close+open they are %s", v.stepOp, n, refsBefore, got), h.witness(map[string]interface{}{"image": label}))
 		}
 		if len(tv.refs[v.m.targets[0]]) > 0 || (len(v.m.targets) > 1 && len(tv.refs[v.m.targets[1]]) > 0) {
-			res.count("crash.idle_restarts_with_surviving_reference_files", 1)
+			res.count(what+".idle_restarts_with_surviving_reference_files", 1)
 		}
 		for _, iv := range v.m.targets {
 			if v.tainted[iv] {
@@ -300,10 +301,10 @@ func (h *hist) verifyImage(img imgfs.Image, before map[int]map[int64]string, res
 		v.checkBookkeeping("idle-restart", tv, books)
 		v.crashWindow = false
 	}
-	rollupCtx := "crash-recovery-and-rollup"
+	rollupCtx := what + "-recovery-and-rollup"
 	if restarts > 0 {
-		rollupCtx = "crash-recovery-idle-restarts-and-rollup"
-		res.count("crash.images_rolled_up_after_idle_restarts", 1)
+		rollupCtx = what + "-recovery-idle-restarts-and-rollup"
+		res.count(what+".images_rolled_up_after_idle_restarts", 1)
 	}
 
 	// ---- 2. rollup to quiescence on the recovered engine: exactly once
@@ -330,7 +331,7 @@ func (h *hist) verifyImage(img imgfs.Image, before map[int]map[int64]string, res
 	}
 	tv, err = v.readTargets()
 	if err != nil {
-		res.violation("C04/crash/target-unreadable-after-recovery-rollup", fmt.Sprintf("%s: %v", v.stepOp, err), h.witness(map[string]interface{}{"image": label}))
+		res.violation("C04/"+what+"/target-unreadable-after-recovery-rollup", fmt.Sprintf("%s: %v", v.stepOp, err), h.witness(map[string]interface{}{"image": label}))
 		return
 	}
 	for _, iv := range v.m.targets {
@@ -345,7 +346,7 @@ func (h *hist) verifyImage(img imgfs.Image, before map[int]map[int64]string, res
 	}
 	v.checkNotes(rollupCtx, tv)
 	v.checkBookkeeping(rollupCtx, tv, books)
-	res.count("crash.images_rolled_up_to_quiescence_after_recovery", 1)
+	res.count(what+".images_rolled_up_to_quiescence_after_recovery", 1)
 }
 
 func marksOf(books []famBook) []string {
